@@ -265,6 +265,9 @@ func (g *c05Gen) doc(c *gChart, idx int, allDefs []string, hook bool) string {
 	if g.chance(2) {
 		b.WriteString(g.block(c))
 	}
+	if g.chance(3) {
+		b.WriteString("  dup: {{ include \"common.dup\" . | quote }}\n")
+	}
 	if g.chance(5) {
 		b.WriteString("  yaml:\n{{ toYaml .Values.m | indent 4 }}\n")
 	}
@@ -352,7 +355,12 @@ func (g *c05Gen) chart(name string, depth int, malformed *string) *gChart {
 			continue // present in charts/ but not listed
 		}
 		l := fmt.Sprintf("  - name: %s\n    version: \">=0.0.0\"\n    repository: \"\"\n", d.name)
-		switch g.r.Intn(5) {
+		switch g.r.Intn(7) {
+		case 5:
+			l += "    import-values:\n      - child: nested\n        parent: imported\n"
+		case 6:
+			l += "    import-values:\n      - data\n"
+			d.files["values.yaml"] += "exports:\n  data:\n    exported: from-" + d.name + "\n"
 		case 0:
 			l += fmt.Sprintf("    condition: %s.enabled\n", d.name)
 		case 1:
@@ -382,12 +390,13 @@ func (g *c05Gen) chart(name string, depth int, malformed *string) *gChart {
 		fmt.Sprintf("{{- define %q -}}\napp: {{ include %q . }}\nchart: {{ .Chart.Name }}-{{ .Chart.Version }}\nheritage: {{ .Release.Service }}\n{{- end -}}\n", name+".labels", name+".name") +
 		fmt.Sprintf("{{- define \"common.dup\" -}}dup-from-%s-d%d{{- end -}}\n", name, depth)
 	c.files[g.pick("templates/_helpers.tpl", "templates/_helpers.tpl", "templates/lib/_util.tpl", "templates/_a.yaml")] = helpers
-	if g.chance(4) {
-		c.files["templates/_more.tpl"] = fmt.Sprintf("{{- define \"common.dup\" -}}dup-more-%s{{- end -}}\n", name)
+	if g.chance(3) {
+		c.files[g.pick("templates/_more.tpl", "templates/_Z.tpl", "templates/_0.tpl", "templates/lib/_b.tpl")] = fmt.Sprintf("{{- define \"common.dup\" -}}dup-more-%s{{- end -}}\n", name)
 	}
 	// manifests
 	tnames := []string{"templates/cm.yaml", "templates/B.yaml", "templates/a.yaml", "templates/a/b.yaml", "templates/a/b/c.yaml",
-		"templates/svc.yml", "templates/zz.yaml", "templates/0.yaml", "templates/deep/x/y/z.yaml", "templates/a-b.yaml", "templates/tests/t.yaml"}
+		"templates/svc.yml", "templates/zz.yaml", "templates/0.yaml", "templates/deep/x/y/z.yaml", "templates/a-b.yaml", "templates/tests/t.yaml",
+		"templates/A.yaml", "templates/a.b.yaml", "templates/ü.yaml", "templates/a/B.yaml", "templates/x.tpl", "templates/notes.txt"}
 	g.r.Shuffle(len(tnames), func(i, j int) { tnames[i], tnames[j] = tnames[j], tnames[i] })
 	nt := 1 + g.r.Intn(4)
 	for i := 0; i < nt; i++ {
@@ -566,7 +575,7 @@ func c05GenChart(r *rand.Rand) c05Case {
 			ref = "#/definitions/d"
 		}
 		files["values.schema.json"] = c05Schema(ref)
-		c.Values["refd"] = []any{1, 7, 2, "s", true}[r.Intn(5)]
+		c.Values["refd"] = []any{1, 7, 2, 3, 11, "s", true}[r.Intn(7)]
 		if r.Intn(6) == 0 {
 			c.Values["num"] = "not-a-number"
 		}
@@ -579,6 +588,15 @@ func c05GenChart(r *rand.Rand) c05Case {
 	c.IncludeCRDs = r.Intn(2) == 0
 	c.HideSecret = r.Intn(5) == 0
 	c.EnableDNS = false
+	usesDNS := false
+	for _, d := range files {
+		if strings.Contains(d, "getHostByName") {
+			usesDNS = true
+		}
+	}
+	if !usesDNS && r.Intn(6) == 0 {
+		c.EnableDNS = true // nothing asks for a name: the switch must not matter
+	}
 	c.SkipSchema = r.Intn(12) == 0
 	return c
 }
